@@ -98,6 +98,19 @@ def run_oracle(scn, tr):
                 v.append(x)
 
     D = scn["D"]
+    # (b, centre) the surrogate used by a poll step, and the first one fitted in a search step, is centred on the incumbent
+    for st_ in tr.steps:
+        if st_["kind"] not in ("poll", "search") or st_["entry"] is None:
+            continue
+        fits = [e for e in tr.events[st_["events_lo"]:] if e.get("type") == "local_fit" and e["phase"] == (st_["kind"], st_["k"])]
+        if st_["kind"] == "search":
+            fits = fits[:1] if fits and fits[0].get("ncalls_at", st_["call_lo"]) == st_["call_lo"] else []
+        for e in fits:
+            evals += 1
+            if not np.array_equal(e["centre"], st_["entry"]["u"]):
+                add([viol("b:local-fit-not-centred-on-incumbent", f"{st_['kind']} step {st_['k']}: training set selected around {e['centre'].tolist()} "
+                          f"but the incumbent is {st_['entry']['u'].tolist()}", site=st_["kind"])])
+                break
     for e in tr.events:
         t = e.get("type")
         if t == "gp_init":
